@@ -1,9 +1,9 @@
 From Coq Require Import Extraction ExtrOcamlBasic.
-From PV Require Import Lib.ExtractBase Lib.Table Gen.GrpcStatusGen Model.GrpcStatus Model.GrpcCall Model.GrpcExample
+From PV Require Import Lib.ExtractBase Lib.Table Gen.GrpcStatusGen Gen.HeaderShareGen Model.GrpcStatus Model.GrpcCall Model.GrpcExample
   Model.GunOwner Model.AmmoOwner Model.ScenarioHeap Model.ScenarioAlias Model.SharedSched Model.AmmoShare.
 Extraction Language OCaml.
 Extraction "extracted/C11_model.ml" xb_types grpc_code oinit orun orun_stuck exclusive_b arun arun_stuck ammo_exclusive_b
   isolated_b flow_ok_b fp writes reads synchronised owner inst_of
   scen_model scen_spec heap_of sguns_of wire_meta out_code http_spec
   shared_seen_ok_b shared_fin_ok_b
-  prun spec_run ops_of_plan decode_all pinit.
+  prun spec_run ops_of_plan decode_all pinit gen_enrich_clip gen_headerdate_mw.
